@@ -25,8 +25,15 @@ use std::time::{Duration, Instant};
 use verif_lang::common::*;
 use verif_lang::runner::errs_to_strings;
 
-const RUST_TEST_MAIN_TEMPLATE: &str =
-    include_str!("/repo/crates/lib/mimium-lang/src/compiler/mimium_test_main.rs.template");
+/// mimium_test_main.rs.template of the checkout under test (VERIF_REPO, default /repo), read at start-up
+fn main_template() -> &'static str {
+    static T: std::sync::OnceLock<String> = std::sync::OnceLock::new();
+    T.get_or_init(|| {
+        let repo = std::env::var("VERIF_REPO").unwrap_or_else(|_| "/repo".to_string());
+        std::fs::read_to_string(format!("{repo}/crates/lib/mimium-lang/src/compiler/mimium_test_main.rs.template"))
+            .expect("mimium_test_main.rs.template not readable")
+    })
+}
 
 const HOST_DECLS: &str = r#"
 struct VerifHost { now: f64 }
@@ -44,7 +51,7 @@ fn verif_bits(w: Word) -> String {
 "#;
 
 fn render_rust_test_main(decls: &str, program_init: &str, call_main: Option<&str>, run_body: &str) -> String {
-    RUST_TEST_MAIN_TEMPLATE
+    main_template()
         .replace("/*__DECLS__*/", decls)
         .replace("/*__PROGRAM_INIT__*/", program_init)
         .replace("/*__CALL_MAIN__*/", call_main.unwrap_or_default())
